@@ -17,14 +17,15 @@ type oentry struct {
 }
 
 type omap struct {
+	valType types.Type
 	keyType types.Type
 	entries []*oentry
 	idx     map[value]*oentry // concrete, natively hashable keys only
 	nsym    int               // live entries whose key is not in idx
 }
 
-func makeMap(kt types.Type, reserve int64) value {
-	return &omap{keyType: kt, idx: make(map[value]*oentry)}
+func makeMap(kt, vt types.Type, reserve int64) value {
+	return &omap{keyType: kt, valType: vt, idx: make(map[value]*oentry)}
 }
 
 // fastKey reports whether k can be used as a native Go map key with Go's own equality.
@@ -153,8 +154,25 @@ func (m *omap) iter() iter {
 	}
 	snap := make([]*oentry, len(m.entries))
 	copy(snap, m.entries)
-	if P != nil && P.mapOrderChoice != nil && P.mapOrderChoice(P) {
-		return &omapChoiceIter{rem: snap}
+	if P != nil && P.mapOrderPred != nil && m.valType != nil {
+		// entries selected by the harness predicate come last, in an order chosen
+		// by forking; the others keep insertion order
+		var fixed, free []*oentry
+		for _, e := range snap {
+			var arg value = e.val
+			if _, isIface := m.valType.Underlying().(*types.Interface); !isIface {
+				arg = iface{t: m.valType, v: e.val}
+			}
+			r := call(W.interp, nil, 0, P.mapOrderPred, []value{arg})
+			if b, ok := r.(bool); ok && b {
+				free = append(free, e)
+			} else {
+				fixed = append(fixed, e)
+			}
+		}
+		if len(free) > 1 {
+			return &omapChoiceIter{pre: fixed, rem: free, last: -1}
+		}
 	}
 	return &omapIter{snap: snap}
 }
@@ -163,27 +181,58 @@ func (m *omap) iter() iter {
 // (all permutations are paths). Used where a property quantifies over Go's
 // unspecified map iteration order.
 type omapChoiceIter struct {
-	rem []*oentry
+	pre  []*oentry
+	rem  []*oentry
+	last int
+	done map[int]bool
+	tail bool
 }
 
 func (it *omapChoiceIter) next() tuple {
-	live := it.rem[:0:0]
-	for _, e := range it.rem {
+	for len(it.pre) > 0 {
+		e := it.pre[0]
+		it.pre = it.pre[1:]
 		if !e.dead {
-			live = append(live, e)
+			return tuple{true, e.key, e.val}
 		}
 	}
-	it.rem = live
-	if len(live) == 0 {
-		return tuple{false, nil, nil}
+	// The state an interrupted loop leaves behind depends on the SET of entries
+	// visited, not on their order, so only increasing sequences are explored:
+	// the next entry is any live one after the last one chosen (2^n sequences
+	// instead of n! orders); when none is left after it, the skipped ones
+	// follow in insertion order.
+	if !it.tail {
+		var cands []int
+		for i := it.last + 1; i < len(it.rem); i++ {
+			if !it.rem[i].dead && !it.done[i] {
+				cands = append(cands, i)
+			}
+		}
+		if len(cands) > 0 {
+			c := 0
+			if len(cands) > 1 {
+				c = P.pureChoice(len(cands))
+			}
+			i := cands[c]
+			it.last = i
+			if it.done == nil {
+				it.done = map[int]bool{}
+			}
+			it.done[i] = true
+			return tuple{true, it.rem[i].key, it.rem[i].val}
+		}
+		it.tail = true
 	}
-	c := 0
-	if len(live) > 1 {
-		c = P.pureChoice(len(live))
+	for i := 0; i < len(it.rem); i++ {
+		if !it.rem[i].dead && !it.done[i] {
+			if it.done == nil {
+				it.done = map[int]bool{}
+			}
+			it.done[i] = true
+			return tuple{true, it.rem[i].key, it.rem[i].val}
+		}
 	}
-	e := live[c]
-	it.rem = append(append([]*oentry{}, live[:c]...), live[c+1:]...)
-	return tuple{true, e.key, e.val}
+	return tuple{false, nil, nil}
 }
 
 func (m *omap) String() string {
